@@ -54,8 +54,9 @@ open QV QV.Writer QV.ServerSafety
   executable `checkSession` walks the reported statuses and compares each item with the mode in
   effect *when it was written* (the theorems: exact equality when no `Standard` mode occurs in the
   session, equality up to ASCII case otherwise), it also runs the pointer audit (that is C13,
-  `C13_holds`), and (d) is stated for finished messages of at most 65535 octets (RDLENGTH is a
-  16-bit field; the writer itself accepts larger buffers). The driver evaluates `checkSession`
+  `C13_holds`), and (d) is stated for finished messages of at most 65535 octets, i.e. for sessions
+  whose limits are at most 65535 (`C12_refinement_all_modes_dns_limits`; RDLENGTH is a 16-bit
+  field, the writer itself accepts larger buffers). The driver evaluates `checkSession`
   itself on 100 % of the generated sessions (model column and, on the implementation's octets, spec
   column of `waudit`). -/
 
@@ -380,6 +381,8 @@ theorem C12_rdata_round_trip_all_modes (hint : Hint) (owner : WName) (ty cls ttl
   CLASS, TTL and every other RDATA octet as given. `ex` may be taken `True` whenever neither the
   initial mode nor any mode set during the session is `Standard`, and `False` always.
 
+  `C12_refinement_all_modes_dns_limits`: no premise on the size when all limits are at most 65535.
+
   `C12_refinement_without_standard_mode`: with `ex = True`, the decoded message *equals* the abstract
   message of the successful calls — the statement of `C12_disabled_refinement`, now for
   `CasePreserving` (and any mix of `CasePreserving` and `Disabled`). -/
@@ -412,6 +415,27 @@ theorem C12_refinement_without_standard_mode (macFn : Tsig → List UInt8 → Li
             optRecs (run { w := { s0 with mode := mode } } ops).1.w.edns ++
             tsigRecs (run { w := { s0 with mode := mode } } ops).1.w.tsig mac).map specR⟩) :=
   refines_exact macFn hmac buf limit s0 hnew mode ops ht hr hm0 hms
+
+/-- the same without a premise on the size of the message: when the limit given to `Writer::new`
+    and every limit set later is at most 65535 (the largest DNS message), the finished message has
+    at most 65535 octets (`session_size_le`), so the refinement holds outright -/
+theorem C12_refinement_all_modes_dns_limits (macFn : Tsig → List UInt8 → List UInt8) (hmac : MacLenOK macFn)
+    (buf : Bytes) (limit : Nat) (s0 : State) (hnew : Writer.new buf limit = .ok s0) (hlim : limit ≤ 65535)
+    (mode : CMode) (ops : List Op) (ht : ∀ op ∈ ops, op.Typed)
+    (hr : Respects { w := { s0 with mode := mode } } ops) (hv : ∀ v, Op.setLimit v ∈ ops → v ≤ 65535)
+    (ex : Prop) (hex : ex → mode ≠ .standard ∧ ∀ m, Op.setMode m ∈ ops → m ≠ .standard) :
+    ∃ m mac, finish (run { w := { s0 with mode := mode } } ops).1.w macFn = .ok (m, mac) ∧ m.size ≤ 65535 ∧
+      ∃ d : Spec.Message.Decoded, Spec.Message.specDecodeMsg m = some d ∧
+        d.msg.header = specHeader (run { w := { s0 with mode := mode } } ops).1.w.octets ∧
+        All2 (QuestionIs ex) (bodyRun {} ops (run { w := { s0 with mode := mode } } ops).2).qs d.msg.questions ∧
+        All2 (RecordIs ex) (bodyRun {} ops (run { w := { s0 with mode := mode } } ops).2).an d.msg.answers ∧
+        All2 (RecordIs ex) (bodyRun {} ops (run { w := { s0 with mode := mode } } ops).2).ns d.msg.authorities ∧
+        All2 (RecordIs ex) ((bodyRun {} ops (run { w := { s0 with mode := mode } } ops).2).ar ++
+          optRecs' (run { w := { s0 with mode := mode } } ops).1.w.edns ++
+          tsigRecs (run { w := { s0 with mode := mode } } ops).1.w.tsig mac) d.msg.additionals := by
+  obtain ⟨m, mac, hf, hrest⟩ := refines_all_modes macFn hmac buf limit s0 hnew mode ops ht hr ex hex
+  have hsz := session_size_le macFn buf limit s0 hnew hlim mode ops hr hv m mac hf
+  exact ⟨m, mac, hf, hsz, hrest hsz⟩
 
 /-! non-vacuity: a `CasePreserving` session that respects the contract, whose calls all succeed, and
     that emits two pointers (owner = QNAME; the CNAME target shares a suffix with it) — all
